@@ -788,14 +788,14 @@ Proof.
   assert (H2 : in_width 64 9007199254740993%Z = true) by (vm_compute; reflexivity).
   assert (H3 : any_pf 0 txt_2p53_1 = Some (f64_of_Z 9007199254740993%Z)) by (vm_compute; reflexivity).
   specialize (H any_pf (fun _ _ => 0%Z) txt_2p53_1 9007199254740993%Z H1 H2 H3).
-  destruct precision_witness as [A B]. rewrite A, B in H. discriminate.
+  destruct precision_witness as [A B]. rewrite A, B in H. injection H as E. discriminate E.
 Qed.
 
 (* the other excluded cases are genuine differences between the two readers *)
 Lemma reader_differences :
   (* a JSON null array item / document: the empty record for the JSON reader, InvalidTypeError for the untyped reader *)
   (decJ c06_env c06_star ps_empty 0 any_pf 8 false (TArray (TRef 0)) (JArr [JNull]) tracker0
-     = Ok (VArr [VRec [] [Some (VInt 0); None; Some (VInt 7)]], {| t_scope := []; t_missing := [c06_b "[0].a"] |})
+     = Ok (VArr [VRec [] [Some (VInt 0); None; Some (VInt 7)]], {| t_scope := []; t_missing := [[x5b;x30;x5d;x2e;x61]] |})
    /\ decA c06_env c06_star ps_empty 0 any_pf (fun _ _ => 0%Z) 8 false (TArray (TRef 0)) (of_jdoc any_pf (JArr [JNull])) tracker0
      = Err EDeser)
   (* a string where an integer / a boolean is expected: rejected by the JSON reader, parsed by the untyped reader *)
@@ -810,3 +810,194 @@ Lemma reader_differences :
       /\ decA [] [] ps_empty 0 any_pf (fun _ _ => 77%Z) 1 true (TPrim PInt)
            (of_jdoc any_pf (JNum [x34;x32;x39;x34;x39;x36;x37;x32;x39;x37])) tracker0 = Ok (VInt 77, tracker0)).
 Proof. repeat split; vm_compute; reflexivity. Qed.
+
+(* ---------------------------------------------------------------------------------------------------------------------------
+   F. the premise parseF_int_exact is what correct rounding gives: float64(z) for |z| <= 2^53 is exact
+   --------------------------------------------------------------------------------------------------------------------------- *)
+Section F64Exact.
+Local Open Scope Z_scope.
+(* the fields of a pattern assembled from sign, exponent field and mantissa field *)
+Lemma f64_fields (s : bool) (ex mf : Z) :
+  0 <= ex < 2048 -> 0 <= mf < 2 ^ 52 ->
+  let b := N.add (if s then (2 ^ 63)%N else 0%N) (Z.to_N (ex * 2 ^ 52 + mf)) in
+  f64_exp b = Z.to_N ex /\ f64_man b = Z.to_N mf /\ f64_neg b = s.
+Proof.
+  intros Hex Hmf b.
+  assert (Hb : Z.of_N b = (if s then 2 ^ 63 else 0) + ex * 2 ^ 52 + mf).
+  { unfold b. rewrite N2Z.inj_add, Z2N.id by nia. destruct s.
+    - change (Z.of_N (2 ^ 63)) with (2 ^ 63). ring.
+    - change (Z.of_N 0) with 0. ring. }
+  assert (E1 : Z.of_N (f64_exp b) = ex).
+  { unfold f64_exp. rewrite N2Z.inj_mod, N2Z.inj_div, Hb. change (Z.of_N (2 ^ 52)) with (2 ^ 52). change (Z.of_N 2048) with 2048.
+    replace ((if s then 2 ^ 63 else 0) + ex * 2 ^ 52 + mf) with (((if s then 2048 else 0) + ex) * 2 ^ 52 + mf)
+      by (destruct s; change (2 ^ 63) with (2048 * 2 ^ 52); ring).
+    rewrite Z.div_add_l by (vm_compute; discriminate). rewrite (Z.div_small mf) by lia. rewrite Z.add_0_r.
+    destruct s.
+    - replace (2048 + ex) with (ex + 1 * 2048) by ring. rewrite Z.mod_add by lia. apply Z.mod_small. lia.
+    - apply Z.mod_small. lia. }
+  assert (E2 : Z.of_N (f64_man b) = mf).
+  { unfold f64_man. rewrite N2Z.inj_mod, Hb. change (Z.of_N (2 ^ 52)) with (2 ^ 52).
+    replace ((if s then 2 ^ 63 else 0) + ex * 2 ^ 52 + mf) with (mf + ((if s then 2048 else 0) + ex) * 2 ^ 52)
+      by (destruct s; change (2 ^ 63) with (2048 * 2 ^ 52); ring).
+    rewrite Z.mod_add by (vm_compute; discriminate). apply Z.mod_small. lia. }
+  split; [|split].
+  - apply N2Z.inj. rewrite E1, Z2N.id; lia.
+  - apply N2Z.inj. rewrite E2, Z2N.id; lia.
+  - unfold f64_neg. apply eq_true_iff_eq. rewrite N.testbit_true.
+    assert (Hd : Z.of_N (b / 2 ^ 63) = if s then 1 else 0).
+    { rewrite N2Z.inj_div, Hb. change (Z.of_N (2 ^ 63)) with (2 ^ 63).
+      assert (0 <= ex * 2 ^ 52 + mf < 2 ^ 63) by (change (2 ^ 63) with (2048 * 2 ^ 52); nia).
+      destruct s.
+      - replace (2 ^ 63 + ex * 2 ^ 52 + mf) with ((ex * 2 ^ 52 + mf) + 1 * 2 ^ 63) by ring.
+        rewrite Z.div_add by (vm_compute; discriminate). rewrite Z.div_small; lia.
+      - apply Z.div_small. lia. }
+    destruct s.
+    + replace (b / 2 ^ 63)%N with 1%N by (apply N2Z.inj; rewrite Hd; reflexivity). split; reflexivity.
+    + replace (b / 2 ^ 63)%N with 0%N by (apply N2Z.inj; rewrite Hd; reflexivity). split; intro H; discriminate H.
+Qed.
+
+Lemma log2_N_Z (p : positive) : Z.of_N (N.log2 (N.pos p)) = Z.log2 (Z.pos p).
+Proof.
+  symmetry. apply Z.log2_unique; [apply N2Z.is_nonneg|].
+  destruct (N.log2_spec (N.pos p)) as [L U]; [reflexivity|].
+  apply N2Z.inj_le in L. apply N2Z.inj_lt in U. rewrite N2Z.inj_pow in L, U. rewrite N2Z.inj_succ in U.
+  change (Z.of_N 2) with 2 in *. change (Z.of_N (N.pos p)) with (Z.pos p) in *. split; assumption.
+Qed.
+
+Lemma rne52_small (neg : bool) (p : positive) :
+  Z.pos p < 2 ^ 53 ->
+  let n := Z.log2 (Z.pos p) in
+  rne_encode 52 11 neg (Npos p) 0
+  = N.add (if neg then (2 ^ 63)%N else 0%N) (Z.to_N ((n + 1023) * 2 ^ 52 + (Z.pos p * 2 ^ (52 - n) - 2 ^ 52))).
+Proof.
+  intros Hp n. unfold rne_encode.
+  change (N.pos p =? 0)%N with false. cbv iota zeta.
+  change (52 + 11)%N with 63%N. change (Z.of_N 52) with 52. change (Z.of_N 11) with 11.
+  change (2 ^ (11 - 1) - 1) with 1023. change (1 - 1023) with (-1022).
+  rewrite log2_N_Z. fold n.
+  assert (Hn : 0 <= n < 53).
+  { split; [apply Z.log2_nonneg|]. apply Z.log2_lt_pow2; lia. }
+  rewrite Z.add_0_r. rewrite Z.max_l by lia. rewrite Z.sub_0_r.
+  destruct (Z.leb_spec (n - 52) 0) as [_|H]; [|lia].
+  replace (- (n - 52)) with (52 - n) by ring.
+  assert (Hm : 2 ^ 52 <= Z.pos p * 2 ^ (52 - n) < 2 ^ 53).
+  { pose proof (Z.log2_spec (Z.pos p) (Pos2Z.pos_is_pos p)) as [L U]. fold n in L, U.
+    assert (E52 : 2 ^ 52 = 2 ^ n * 2 ^ (52 - n)) by (rewrite <- Z.pow_add_r by lia; f_equal; lia).
+    assert (E53 : 2 ^ 53 = 2 ^ Z.succ n * 2 ^ (52 - n)) by (rewrite <- Z.pow_add_r by lia; f_equal; lia).
+    assert (P : 0 < 2 ^ (52 - n)) by (apply Z.pow_pos_nonneg; lia).
+    rewrite E52, E53. split; nia. }
+  f_equal. f_equal. change (Z.of_N (N.pos p)) with (Z.pos p).
+  destruct (Z.leb_spec ((2 ^ 11 - 1) * 2 ^ 52) ((n + 1023 - 1) * 2 ^ 52 + Z.pos p * 2 ^ (52 - n))) as [H|H].
+  - exfalso. change ((2 ^ 11 - 1) * 2 ^ 52) with (2047 * 2 ^ 52) in H. change (2 ^ 53) with (2 * 2 ^ 52) in Hm.
+    assert (0 < 2 ^ 52) by (vm_compute; reflexivity). nia.
+  - ring.
+Qed.
+
+Theorem f64_of_Z_exact : forall z, Z.abs z <= 2 ^ 53 -> f64_trunc (f64_of_Z z) = Some z.
+Proof.
+  intros z Hz.
+  destruct (Z.eq_dec (Z.abs z) (2 ^ 53)) as [E|NE].
+  { destruct z as [|p|p]; try discriminate; simpl Z.abs in E; injection E as ->; vm_compute; reflexivity. }
+  assert (Hlt : Z.abs z < 2 ^ 53) by lia. clear Hz NE.
+  destruct z as [|p|p]; [vm_compute; reflexivity| |].
+  - unfold f64_of_Z. change (Z.pos p <? 0) with false. change (Z.abs_N (Z.pos p)) with (N.pos p).
+    simpl Z.abs in Hlt. rewrite (rne52_small false p Hlt).
+    set (n := Z.log2 (Z.pos p)).
+    assert (Hn : 0 <= n < 53) by (split; [apply Z.log2_nonneg|apply Z.log2_lt_pow2; lia]).
+    pose proof (Z.log2_spec (Z.pos p) (Pos2Z.pos_is_pos p)) as [L U]. fold n in L, U.
+    assert (E52 : 2 ^ 52 = 2 ^ n * 2 ^ (52 - n)) by (rewrite <- Z.pow_add_r by lia; f_equal; lia).
+    assert (E53 : 2 ^ 53 = 2 ^ Z.succ n * 2 ^ (52 - n)) by (rewrite <- Z.pow_add_r by lia; f_equal; lia).
+    assert (P : 0 < 2 ^ (52 - n)) by (apply Z.pow_pos_nonneg; lia).
+    assert (Hm : 2 ^ 52 <= Z.pos p * 2 ^ (52 - n) < 2 ^ 53) by (rewrite E52, E53; split; nia).
+    destruct (f64_fields false (n + 1023) (Z.pos p * 2 ^ (52 - n) - 2 ^ 52)) as [F1 [F2 F3]]; [lia|change (2^53) with (2 * 2^52) in Hm; lia|].
+    unfold f64_trunc. rewrite F1, F2, F3.
+    destruct (N.eqb_spec (Z.to_N (n + 1023)) 2047) as [A|_]; [apply (f_equal Z.of_N) in A; rewrite Z2N.id in A by lia; simpl in A; lia|].
+    destruct (N.eqb_spec (Z.to_N (n + 1023)) 0) as [A|_]; [apply (f_equal Z.of_N) in A; rewrite Z2N.id in A by lia; simpl in A; lia|].
+    rewrite !Z2N.id by lia. f_equal.
+    replace (2 ^ 52 + (Z.pos p * 2 ^ (52 - n) - 2 ^ 52)) with (Z.pos p * 2 ^ (52 - n)) by ring.
+    replace (n + 1023 - 1075) with (n - 52) by ring.
+    destruct (Z.leb_spec 0 (n - 52)) as [H|H].
+    + assert (n = 52) by lia. subst n. replace (52 - 52) with 0 in * by ring. rewrite H0. change (52 - 52) with 0. simpl. lia.
+    + replace (- (n - 52)) with (52 - n) by ring. apply Z.div_mul. lia.
+  - unfold f64_of_Z. change (Z.neg p <? 0) with true. change (Z.abs_N (Z.neg p)) with (N.pos p).
+    simpl Z.abs in Hlt. rewrite (rne52_small true p Hlt).
+    set (n := Z.log2 (Z.pos p)).
+    assert (Hn : 0 <= n < 53) by (split; [apply Z.log2_nonneg|apply Z.log2_lt_pow2; lia]).
+    pose proof (Z.log2_spec (Z.pos p) (Pos2Z.pos_is_pos p)) as [L U]. fold n in L, U.
+    assert (E52 : 2 ^ 52 = 2 ^ n * 2 ^ (52 - n)) by (rewrite <- Z.pow_add_r by lia; f_equal; lia).
+    assert (E53 : 2 ^ 53 = 2 ^ Z.succ n * 2 ^ (52 - n)) by (rewrite <- Z.pow_add_r by lia; f_equal; lia).
+    assert (P : 0 < 2 ^ (52 - n)) by (apply Z.pow_pos_nonneg; lia).
+    assert (Hm : 2 ^ 52 <= Z.pos p * 2 ^ (52 - n) < 2 ^ 53) by (rewrite E52, E53; split; nia).
+    destruct (f64_fields true (n + 1023) (Z.pos p * 2 ^ (52 - n) - 2 ^ 52)) as [F1 [F2 F3]]; [lia|change (2^53) with (2 * 2^52) in Hm; lia|].
+    unfold f64_trunc. rewrite F1, F2, F3.
+    destruct (N.eqb_spec (Z.to_N (n + 1023)) 2047) as [A|_]; [apply (f_equal Z.of_N) in A; rewrite Z2N.id in A by lia; simpl in A; lia|].
+    destruct (N.eqb_spec (Z.to_N (n + 1023)) 0) as [A|_]; [apply (f_equal Z.of_N) in A; rewrite Z2N.id in A by lia; simpl in A; lia|].
+    rewrite !Z2N.id by lia. f_equal.
+    replace (2 ^ 52 + (Z.pos p * 2 ^ (52 - n) - 2 ^ 52)) with (Z.pos p * 2 ^ (52 - n)) by ring.
+    replace (n + 1023 - 1075) with (n - 52) by ring.
+    destruct (Z.leb_spec 0 (n - 52)) as [H|H].
+    + assert (H0 : n = 52) by lia. rewrite H0. change (52 - 52) with 0. simpl. lia.
+    + replace (- (n - 52)) with (52 - n) by ring. rewrite Z.div_mul by lia. reflexivity.
+Qed.
+
+End F64Exact.
+
+Lemma any_pf_int_exact : parseF_int_exact any_pf.
+Proof.
+  intros txt z Hp Hz. exists (f64_of_Z z). split.
+  - unfold any_pf. rewrite Hp. reflexivity.
+  - apply f64_of_Z_exact. exact Hz.
+Qed.
+
+(* ---- a document exercising every position (unknown field of array shape, null map entry, union, inherited required field,
+   optional and defaulted fields absent) on which every premise holds ---- *)
+From Coq.Strings Require Import String.
+Definition any_text : bytes :=
+  Eval vm_compute in
+    c06_b "{""zz"":[1,{""q"":null}],""l"":[{""a"":1},{""c"":3}],""b"":""s"",""m"":{""k"":{},""n"":null},""u"":{""t.Inner"":{""b"":""x""}}}"%string.
+Definition any_doc : jdoc := Eval vm_compute in match parse_json any_text with Some j => j | None => JNull end.
+
+Lemma any_doc_ws : well_shaped c06_env any_pf 8 (TRef 1) any_doc.
+Proof. unfold any_doc. c06_ws. Qed.
+
+Ltac any_ue :=
+  repeat first
+    [ progress simpl
+    | match goal with
+      | |- exists _, _ => eexists
+      | |- ue_members _ _ => unfold ue_members
+      | |- _ /\ _ => split
+      | |- NoDup _ => simpl; c06_nd
+      | |- Forall _ _ => constructor
+      | |- _ = _ => reflexivity
+      | |- (_ <= _)%Z => vm_compute; discriminate
+      | |- True => exact I
+      | |- forall _, _ => intro
+      | H : False |- _ => contradiction H
+      | H : _ \/ _ |- _ => destruct H
+      | H : ?a = ?a |- _ => clear H
+      | H : Some _ = Some _ |- _ => inversion H; subst; clear H
+      | H : nth_error _ _ = _ |- _ => progress simpl in H
+      | H : _ = _ |- _ => first [discriminate H | subst]
+      end ].
+
+Lemma any_doc_ue : untyped_exact c06_env 8 (TRef 1) any_doc.
+Proof. unfold any_doc. any_ue. Qed.
+
+Lemma any_nonvacuous :
+  parseF_int_exact any_pf /\ parseF_f32_via_f64 any_pf /\ wf_schema c06_env /\
+  well_shaped c06_env any_pf 8 (TRef 1) any_doc /\ untyped_exact c06_env 8 (TRef 1) any_doc /\
+  keys_nonempty (entries_of any_doc) /\
+  decode_any c06_env c06_star ps_empty 0 any_pf (fun _ _ => 0%Z) 8 (TRef 1) (of_jdoc any_pf any_doc)
+  = DMissing (map c06_b ["a"; "l[1].a"; "m.k.a"; "u.t.Inner.a"; "x"]%string)
+      (VRec [VRec [] [Some (VInt 0); Some (VStr (c06_b "s")); None]]
+         [Some (VRec [] [Some (VInt 0); None; None]);
+          Some (VArr [VRec [] [Some (VInt 1); None; Some (VInt 7)]; VRec [] [Some (VInt 0); None; Some (VInt 3)]]);
+          Some (VMap [(c06_b "k", VRec [] [Some (VInt 0); None; Some (VInt 7)])]);
+          Some (VUnion [Some (VRec [] [Some (VInt 0); Some (VStr (c06_b "x")); Some (VInt 7)]); None])]).
+Proof.
+  split; [exact any_pf_int_exact|]. split; [exact any_pf_f32|]. split; [exact c06_wf|].
+  split; [exact any_doc_ws|]. split; [exact any_doc_ue|]. split.
+  - unfold any_doc. simpl. repeat (constructor; [discriminate|]). constructor.
+  - vm_compute. reflexivity.
+Qed.
